@@ -1,98 +1,65 @@
-import AlatorVerif.Model.HttpU
+import AlatorVerif.Model.Http
+import AlatorVerif.Driver.Srv
 namespace Drv.Http
-open PU PSU PJs PH
+open SV PJs PHt Drv Drv.Srv
 
-abbrev A := App String Float
-def f64 (s : String) : Float := Float.ofBits (s.toNat!.toUInt64)
-def bits (x : Float) : String := if x == 0.0 then "0" else toString x.toBits.toNat
-
+/-- canonical token stream of a JSON AST: keys sorted, floats as bit patterns -/
 partial def canon : Json Float → String
   | .null => "N"
   | .bool b => if b then "T" else "F"
   | .int n => s!"I{n}"
-  | .num x => s!"D{bits x}"
-  | .str s => "S" ++ s
-  | .arr xs => "[ " ++ " ".intercalate (xs.map canon) ++ " ]"
+  | .num x => fb x
+  | .str s => s!"S{s}"
+  | .arr xs => s!"[ {joinSp (xs.map canon)} ]"
   | .obj kvs =>
-    let sorted := kvs.toArray.qsort (fun a b => a.1 < b.1) |>.toList
-    "{ " ++ " ".intercalate (sorted.map (fun kv => kv.1 ++ " " ++ canon kv.2)) ++ " }"
+    let ks := (kvs.toArray.qsort (fun a b => a.1 < b.1)).toList
+    s!"\{ {joinSp (ks.map (fun kv => s!"k:{kv.1} {canon kv.2}"))} }"
 
-structure W where
-  storesLast : Bool
-  syms : List String := []
-  dates : List Int := []
-  qs : List (Int × String × Quote Float) := []
-  app : Option A := none
+variable {E Q O D R : Type}
 
-def kindSide (t : Nat) : Kind × Side :=
-  match t with
-  | 0 => (.market, .sell) | 1 => (.market, .buy) | 2 => (.limit, .sell)
-  | 3 => (.limit, .buy) | 4 => (.stop, .sell) | _ => (.stop, .buy)
-def parseQ (date : Int) : Nat → List String → List (Int × String × Quote Float)
-  | 0, _ => []
-  | n + 1, sym :: b :: a :: rest => (date, sym, ⟨f64 b, f64 a, date⟩) :: parseQ date n rest
-  | _, _ => []
-def sellFirstPerm (n : Nat) (idx : List Nat) (buf : List (PU.Order String Float)) : Bool :=
-  let sides := idx.map (fun i => match buf[i]? with | some o => isSell o | none => false)
-  idx.length == n && (List.range n).all (fun i => idx.count i == 1) && (sides.dropWhile id).all (fun b => !b)
-
-def showRsp (r : Rsp Float) : String :=
-  match r.body with
-  | some j => s!"{r.status} {canon j}"
-  | none => s!"{r.status}"
-
-def stepLine (w : W) (line : String) : W × String :=
-  match (line.trimAscii.toString.splitOn " ").filter (fun t => t != "") with
-  | "DATA" :: _ :: rest => ({ w with syms := rest, dates := [], qs := [] }, "ok")
-  | "Q" :: d :: nq :: rest =>
-    let date := d.toInt!
-    if nq.toNat! == 0 then (w, "ok")
-    else ({ w with dates := if w.dates.contains date then w.dates else w.dates ++ [date],
-                   qs := w.qs ++ parseQ date nq.toNat! rest }, "ok")
-  | ["SINGLE", name] =>
-    let quotes : Int → String → Option (Quote Float) := fun d s =>
-      (w.qs.reverse.find? (fun e => e.1 == d && e.2.1 == s)).map (·.2.2)
-    match single name (⟨w.dates, quotes⟩ : Dataset String Float) with
-    | some a => ({ w with app := some a }, "ok")
-    | none => (w, "PANIC")
+def step (ad : Adapter E Q O D R) (enc : Enc Q R Float) (v : Variant) (w : W E Q) (ts : List String) : W E Q × String :=
+  match ts with
+  | "DATA" :: _ | "Q" :: _ | ["SINGLE", _] | ["CREATE"] => Drv.Srv.step ad v w ts
   | op :: rest =>
     match w.app with
     | none => (w, "bad-op")
     | some a =>
-      let req : Option (Req Float) := match op, rest with
-        | "INIT", [name] => some (.init name)
-        | "INS", [id, t, sym, sh, pr] =>
-          let ks := kindSide t.toNat!
-          let price : Option Float := if pr == "-" then none else some (f64 pr)
-          some (.insert id.toNat! ⟨none, ks.1, ks.2, sym, f64 sh, price⟩)
-        | "DEL", [id, oid] => some (.delete id.toNat! oid.toNat!)
-        | "TICK", id :: "A" :: n :: idx =>
-          let idx := (idx.take n.toNat!).map String.toNat!
-          let buf := match a.backtests id.toNat! with | some bt => bt.exch.buffer | none => []
-          if !sellFirstPerm n.toNat! idx buf then none
-          else some (.tick id.toNat! (idx.filterMap (fun i => buf[i]?)))
-        | "FETCH", [id] => some (.fetch id.toNat!)
-        | "INFO", [id] => some (.info id.toNat!)
-        | "NOW", [id] => some (.now id.toNat!)
-        | _, _ => none
-      match req with
-      | none => (w, "bad-op-or-REJECT-ADMISSION")
-      | some r => let out := handle w.storesLast w.syms a r; ({ w with app := some out.2 }, showRsp out.1)
+      let symsOf : String → List String := fun ds => ((w.defs.find? (fun d => d.name == ds)).map (·.syms)).getD []
+      let fin (r : Rsp Float × App E Q) : W E Q × String :=
+        let j := match r.1.body with | some b => canon b | none => "-"
+        ({ w with app := some r.2 }, s!"ST {r.1.status} ; J {j} ; EQ true ; SEQ true")
+      match op, rest with
+      | "NEWBT", [name] =>
+        let r := newBacktest ad.ops a name
+        let i := match r.1 with | .ok i => toString i | _ => "-"
+        ({ w with app := some r.2 }, s!"NB {i} ; EQ true")
+      | "INIT", [name] => fin (handle ad.ops enc v symsOf a (.init name))
+      | "INS", id :: otoks =>
+        match ad.parseIns otoks with
+        | none => (w, "bad-op")
+        | some o => fin (handle ad.ops enc v symsOf a (.insert id.toNat! o))
+      | "DEL", id :: dtoks =>
+        match ad.parseDel dtoks with
+        | none => (w, "bad-op")
+        | some d => fin (handle ad.ops enc v symsOf a (.delete id.toNat! d))
+      | "TICK", id :: "A" :: _ :: ["BAD"] => (w, s!"REJECT-ADMISSION not-a-permutation-of-the-batch {id}")
+      | "TICK", id :: "A" :: n :: idx =>
+        let idx := (idx.take n.toNat!).map String.toNat!
+        let buf := match a.backtests id.toNat! with | some bt => ad.bufOf bt.exch | none => []
+        let sellAt := fun i => match buf[i]? with | some o => ad.isSellO o | none => false
+        if (a.backtests id.toNat!).isSome && (n.toNat! != buf.length || !sellFirstPerm n.toNat! idx sellAt) then
+          (w, "REJECT-ADMISSION not-sell-first")
+        else fin (handle ad.ops enc v symsOf a (.tick id.toNat! (idx.filterMap (fun i => buf[i]?))))
+      | "FETCH", [id] => fin (handle ad.ops enc v symsOf a (.fetch id.toNat!))
+      | "NOW", [id] => fin (handle ad.ops enc v symsOf a (.now id.toNat!))
+      | "INFO", [id] => fin (handle ad.ops enc v symsOf a (.info id.toNat!))
+      | _, _ => (w, "bad-op")
   | _ => (w, "bad-op")
 
-partial def loop (h : IO.FS.Stream) (sl : Bool) (w : W) : IO Unit := do
-  let line ← h.getLine
-  if line.isEmpty then return ()
-  if line.trimAscii.toString == "RESET" then
-    IO.println "reset"
-    loop h sl { storesLast := sl }
-  else
-    let (w', out) := stepLine w line
-    IO.println out
-    loop h sl w'
+def mainUist (args : List String) : IO Unit := do
+  loopWith (← IO.getStdin) ({} : W _ _) (step uistAd uistEnc (variantOf args)) {}
 
-def main (args : List String) : IO Unit := do
-  let sl := args.contains "repaired"
-  loop (← IO.getStdin) sl { storesLast := sl }
+def mainJura (args : List String) : IO Unit := do
+  loopWith (← IO.getStdin) ({} : W _ _) (step juraAd (juraEnc (!args.contains "pinned-F9")) (variantOf args)) {}
 
 end Drv.Http
